@@ -217,6 +217,10 @@ impl<R: Rng + Send> Multiplexor<R> {
         options: config::Options,
         rng: R,
     ) -> (Self, TaskData<S, T>) {
+        // Verification hook: a simulation may shrink the window of the multiplexors built on
+        // this thread (the applications in `penguin` always use the default of 512 frames).
+        #[cfg(all(penguin_rs_verif, feature = "std"))]
+        let options = crate::verif_hooks::adjust_options(options);
         let (datagram_tx, datagram_rx) = mpsc::channel(options.datagram_buffer_size);
         let (con_recv_stream_tx, con_recv_stream_rx) = mpsc::channel(options.stream_buffer_size);
         // This one is unbounded because the protocol itself provides flow control for `Push` frames
